@@ -291,6 +291,7 @@ static void enumerate(void)
 	if (guard)
 		vf_alloc_guard(1);   /* before the first library allocation: every block gets a guard page */
 	vf_alloc_install();
+	vf_alloc_track(1);
 	vk_load();
 	rc_rng_install();
 	lj_select_provider(vf_param & 1);
